@@ -2,22 +2,24 @@
 from __future__ import annotations
 
 import itertools
+import os
 import types
 
+from harness import gen
 from harness.common import drv, errclass, guarded
 
 PID = "C19"
-THEOREMS = []
-_THEOREMS_FINAL = ["digits_roundtrip", "humanized_plain", "humanized_exact", "humanized_floor", "numeral_parses",
-            "region_denotes", "parse_format_id", "parse_format_open", "parse_name_only", "strict_parses",
-            "region_refuses", "parseRegion_refuses", "parseRegion_sound", "uri_slash", "uri_no_sep", "uri_two_sep",
-            "humanized_float_counterexample"]
+THEOREMS = ["digits_roundtrip", "humanized_plain", "humanized_exact", "humanized_exact_nodot", "humanized_floor",
+            "numeral_parses", "region_denotes", "region_denotes_open", "parse_name_only", "strict_parses",
+            "parse_format_id", "parse_format_open", "region_refuses", "refusedClass_sound",
+            "parseRegion_refuses", "parseRegion_sound", "parseRegion_accepts",
+            "uri_slash", "uri_no_sep", "uri_two_sep", "uri_two_sep_any"]
 
 LEVELS = {
     "region_sweep": "top", "region_sweep_unit": "unit",
     "numeral_sweep": "top", "humanized_unit": "unit",
     "region_grammar": "top", "format_roundtrip": "top", "parse_region": "top",
-    "uri": "top", "uri_sweep_unit": "unit",
+    "fetch_region": "top", "uri": "top", "uri_sweep_unit": "unit",
     "tokenize_unit": "unit", "errclass_unit": "unit", "primitives": "unit",
 }
 DESCRIBE = {
@@ -35,6 +37,8 @@ DESCRIBE = {
     "format_roundtrip": "parse_region_string('{}:{}-{}'.format(c, s, e)) == (c, s, e) (and the open-ended form), text = Lean `formatRegion`",
     "parse_region": "cooler.util.parse_region(reg, chromsizes) vs Lean `parseRegion` (defaults, reversed, negative, beyond the "
                     "chromosome, unknown chromosome, missing end without sizes); dict and pandas.Series lookups",
+    "fetch_region": "Cooler.extent(region) and Cooler.bins().fetch(region) on a created cooler with 1-bp bins (bin id = coordinate): the "
+                    "selected range must be the [start, end) Lean `parseRegion` gives for the file's chromosome sizes, or the call must raise",
     "uri": "parse_cooler_uri(f::g) == parse_cooler_uri(f::/g) == (f, '/'+g), file only -> (f, '/'), two separators -> error",
     "uri_sweep_unit": "parse_cooler_uri vs Lean `parseCoolerUri` on every string over {a / : .}",
     "tokenize_unit": "the nested `_tokenize` of parse_region_string (regex finditer) vs Lean `tokenize`",
@@ -238,6 +242,54 @@ def _parse_region(case):
     return {"stats": {"refused" if impl == "E" else "accepted": 1}}
 
 
+FETCH_SIZES = [["chr1", 3000], ["chr 2-b.1", 2000]]
+
+
+def _fetch_region(case):
+    import cooler
+    import numpy as np
+    import pandas as pd
+    names = [n for n, _ in FETCH_SIZES]
+    bins = pd.concat([pd.DataFrame({"chrom": n, "start": np.arange(L, dtype=np.int64), "end": np.arange(L, dtype=np.int64) + 1})
+                      for n, L in FETCH_SIZES], ignore_index=True)
+    bins["chrom"] = pd.Categorical(bins["chrom"], categories=names, ordered=True)
+    px = pd.DataFrame({"bin1_id": np.array([0], dtype=np.int64), "bin2_id": np.array([0], dtype=np.int64),
+                       "count": np.array([1], dtype=np.int32)})
+    path = os.path.join(gen.tmpdir(), f"c19-{os.getpid()}.cool")
+    cooler.create_cooler(path, bins, px)
+    try:
+        c = cooler.Cooler(path)
+        offs, o = {}, 0
+        for n, L in FETCH_SIZES:
+            offs[n] = o
+            o += L
+        for reg in case["regions"]:
+            m = drv().ask("C19.parse_region", reg=reg, chromsizes=FETCH_SIZES)["model"]
+            arg = reg if isinstance(reg, str) else tuple(reg)
+            o1 = guarded(c.extent, arg)
+            o2 = guarded(lambda a: c.bins().fetch(a), arg)
+            if o1[0] == "err" or o2[0] == "err":
+                impl = "E" if (o1[0] == "err" and o2[0] == "err") else ["inconsistent", str(o1), str(o2)[:80]]
+            else:
+                lo, hi = int(o1[1][0]), int(o1[1][1])
+                df = o2[1]
+                chroms = sorted({str(x) for x in df["chrom"]})
+                impl = {"extent": [lo, hi], "nbins": len(df), "chroms": chroms,
+                        "span": [int(df["start"].iloc[0]), int(df["end"].iloc[-1])] if len(df) else None}
+            if m == "E":
+                want = "E"
+            else:
+                cn, a, b = m
+                want = {"extent": [offs[cn] + a, offs[cn] + b], "nbins": b - a, "chroms": [cn] if b > a else [],
+                        "span": [a, b] if b > a else None}
+            if impl != want:
+                return {"mismatch": True, "region": reg, "impl": impl, "expected_from_model": want}
+    finally:
+        if os.path.exists(path):
+            os.unlink(path)
+    return None
+
+
 def _impl_uri(s):
     o = guarded(util.parse_cooler_uri, s)
     return "E" if o[0] == "err" else [o[1][0], o[1][1]]
@@ -345,7 +397,7 @@ def _primitives(case):
 
 CHECKS = {"region_sweep": _region_sweep, "region_sweep_unit": _region_sweep_unit, "numeral_sweep": _numeral_sweep,
           "humanized_unit": _humanized_unit, "region_grammar": _region_grammar, "format_roundtrip": _format_roundtrip,
-          "parse_region": _parse_region, "uri": _uri, "uri_sweep_unit": _uri_sweep_unit, "tokenize_unit": _tokenize_unit,
+          "parse_region": _parse_region, "fetch_region": _fetch_region, "uri": _uri, "uri_sweep_unit": _uri_sweep_unit, "tokenize_unit": _tokenize_unit,
           "errclass_unit": _errclass_unit, "primitives": _primitives}
 
 
@@ -403,6 +455,8 @@ def rand_numeral(rng, lo=0, hi=2 ** 62):
         return {"int": with_commas(str(v), rng), "frac": None, "unit": ""}, v
     u = rng.choice([3, 6, 9])
     unit = rng.choice(UNITS[u])
+    if rng.random() < 0.2 and lo <= (v // 10 ** u) * 10 ** u:
+        v = (v // 10 ** u) * 10 ** u  # a whole multiple of the unit
     i, rest = divmod(v, 10 ** u)
     f = str(rest).rjust(u, "0").rstrip("0")
     if rng.random() < 0.3:  # keep some trailing zeros
@@ -509,6 +563,26 @@ def parse_region_cases(rng, n):
             yield "parse_region", {"reg": text, "chromsizes": cs, "series": rng.random() < 0.3}
 
 
+def _text(p):
+    return p["int"] + ("." + p["frac"] if p["frac"] is not None else "") + p["unit"]
+
+
+def fetch_cases(rng, n):
+    yield "fetch_region", {"regions": ["chr1:1.005k-1.1k", "chr1:1.005k-", "chr1:0-1.005k", "chr 2-b.1:0.29k-1.15k", "chr1:2.675k-3k",
+                                       "chr1:3k-3k", "chr1:0-3,000", "chr1:0-3,001", "chr 2-b.1:1.999k-2K", "chr 2-b.1:0-2.001k",
+                                       "chr1", "chr 2-b.1", "chr3", "chr3:0-1", "chr1:5", "chr1:10-5", ":1-2", "chr1:-1-5", "chr1:1x-5",
+                                       ["chr1", None, None], ["chr1", 5, None], ["chr1", None, 7], ["chr1", 2999, 3000], ["chr1", 0, 3001],
+                                       ["chr1", -1, 5], ["chr 2-b.1", 7, 3], ["nope", 0, 1]]}
+    for _ in range(n):
+        regs = []
+        for _ in range(12):
+            name, L = rng.choice(FETCH_SIZES)
+            a, va = rand_numeral(rng, lo=0, hi=L)
+            b, vb = rand_numeral(rng, lo=va, hi=L + (1 if rng.random() < 0.15 else 0))
+            regs.append(rng.choice([f"{name}:{_text(a)}-{_text(b)}", f"{name}:{_text(a)}-", f"{name}:{_text(a)}-{_text(b)}"]))
+        yield "fetch_region", {"regions": regs}
+
+
 URI_FILES = ["a.cool", "/p/q.mcool", "C:\\x\\y.cool", "dir:name.cool", "", "./x", "a b.cool", "x.cool:", "http://h/x.cool"]
 URI_GROUPS = ["", "a", "a/b", "resolutions/1000", "resolutions/1000/", ":g", "a:b", "a/", "cells/c 1", "0"]
 
@@ -545,6 +619,7 @@ def cases(tier, rng):
         e = rng.choice([None, s, s + 1, s + rng.randrange(2 ** 20), rng.randrange(s, 2 ** 62 + 1)])
         yield "format_roundtrip", {"chrom": rand_name(rng).replace(":", "_"), "start": s, "end": e}
     yield from parse_region_cases(rng, 3000 if thorough else 600)
+    yield from fetch_cases(rng, 150 if thorough else 30)
     yield from uri_cases(rng, 2000 if thorough else 400)
     for fn, ss in (("parse_region_string", mal[:300]),
                    ("parse_humanized", ["", "k", "1.5", "1.2.3k", ".", ".k", "1x", "1 2", "1k2", "1,0,", "1.0", " 1k", "1 kb", "1k b",
@@ -649,6 +724,11 @@ def shrink(name, case):
                 yield dict(case, chromsizes=cs[:i] + cs[i + 1:])
         if case.get("series"):
             yield dict(case, series=False)
+    elif name == "fetch_region":
+        if len(case["regions"]) > 1:
+            r = CHECKS[name](case)
+            if isinstance(r, dict) and r.get("mismatch"):
+                yield {"regions": [r["region"]]}
     elif name == "uri":
         if case.get("third") is not None:
             yield dict(case, third=None)
